@@ -10,6 +10,7 @@ import (
 	"os/exec"
 	"strings"
 	"sync"
+	"syscall"
 	"time"
 )
 
@@ -71,6 +72,8 @@ func startWorker() (*worker, error) {
 	}
 	cmd := exec.Command(self, "-worker")
 	cmd.Env = append(os.Environ(), "GOTRACEBACK=all")
+	cmd.SysProcAttr = &syscall.SysProcAttr{Setpgid: true} // so that stop() can kill grandchildren (cat, sh) too
+	cmd.WaitDelay = 2 * time.Second                        // Wait must not block on pipes held by grandchildren
 	w := &worker{cmd: cmd, stderr: &syncBuf{}}
 	cmd.Stderr = w.stderr
 	if w.stdin, err = cmd.StdinPipe(); err != nil {
@@ -89,6 +92,7 @@ func startWorker() (*worker, error) {
 
 func (w *worker) stop() {
 	w.stdin.Close()
+	syscall.Kill(-w.cmd.Process.Pid, syscall.SIGKILL)
 	w.cmd.Process.Kill()
 	w.cmd.Wait()
 }
@@ -134,6 +138,7 @@ func runAll(cases []*Case, outs []Outcome, harnessError func(string, ...any)) {
 				continue
 			}
 			// the worker died while running this case
+			syscall.Kill(-w.cmd.Process.Pid, syscall.SIGKILL)
 			w.cmd.Wait()
 			stderr := w.stderr.String()
 			o = Outcome{Panic: "worker process died", Site: "?"}
